@@ -65,14 +65,31 @@ func hash64o(b []byte) uint64 {
 	return h.Sum64()
 }
 
+// startKey: where the ascending keys of a node begin - small numbers, the
+// top of the key space (room for span more, no wrap-around), around 2^16 and
+// 2^24 (every byte of the key gets to differ from its neighbours), anywhere.
+func startKey(r *core.Rand, span int) uint32 {
+	top := ^uint32(0) - uint32(span)
+	switch r.Intn(10) {
+	case 0:
+		return top
+	case 1:
+		return uint32(1<<16) - uint32(r.Intn(span+1))
+	case 2:
+		return uint32(1<<24) - uint32(r.Intn(span+1))
+	case 3, 4:
+		return uint32(r.U64() % uint64(top))
+	case 5:
+		return uint32(r.Intn(256))<<16 | uint32(r.Intn(256))<<8 | uint32(r.Intn(256))
+	}
+	return uint32(r.Intn(1000))
+}
+
 var lsnChoices = []uint64{0, 1, 1 << 32, ^uint64(0)}
 
 func genLeaf(r *core.Rand, ncells int, vlen func(i int) int, tomb uint, flags int, lsn uint64, off uint64) nodespec.Spec {
 	sp := nodespec.Spec{Leaf: true, Off: off}
-	key := uint32(r.Intn(1000))
-	if r.Chance(1, 10) {
-		key = ^uint32(0) - uint32(3*ncells) - 2 // ascending up to the top of the key space, no wrap-around
-	}
+	key := startKey(r, 3*ncells+2)
 	for i := 0; i < ncells; i++ {
 		key += uint32(r.Range(1, 3))
 		sp.Acts = append(sp.Acts, nodespec.Act{A: "ins", Key: key, VLen: vlen(i), VSeed: r.U64()})
@@ -165,7 +182,7 @@ func checkC12(c *core.Ctx) []core.Floor {
 	}
 	internal := func(n int, bigOff bool) nodespec.Spec {
 		sp := nodespec.Spec{Leaf: false, Off: off()}
-		key := uint32(r.Intn(100))
+		key := startKey(r, 50*n+2)
 		for i := 0; i < n; i++ {
 			key += uint32(r.Range(1, 50))
 			ch := uint64(r.Intn(1<<20)) * 4096
